@@ -33,7 +33,7 @@ RULE = ("the C03 history space with header variation: BOOTID/CONFIGID/custom/vol
 EXHAUSTIVE = {"quick": False, "thorough": False}
 ASSUMPTIONS = [
     "header names and values are ASCII",
-    "timestamps are integers (microseconds); max-age <= 1800 s in the generator, so the saturating valid_to sums are never taken (not modelled)",
+    "timestamps are integers (microseconds) on the harness' axis (epoch 2020-01-01), all within [datetime.min, datetime.max]",
     "URLs follow scheme://[user@]host[:port]/path with host a dotted quad, a name or a bracketed IPv6 literal",
     "callbacks do not mutate the device or the headers",
 ]
@@ -47,14 +47,14 @@ def chatty_history(rng, n: int) -> List[Any]:
     """one or two devices, few types, many header variations, mostly small gaps"""
     udns = K.UDNS[: rng.choice([1, 1, 2])]
     types = K.TYPES[: rng.choice([1, 2, 3])]
-    ts = 0
+    ts = K.start_time(rng)
     ops = []
     for _ in range(n):
-        ts += rng.choice([0, 1, 1, 2, 4, 6, 30, 901, -1]) * K.SEC
+        ts = K.clamp(ts + rng.choice([0, 1, 1, 2, 4, 6, 30, 901, -1]) * K.SEC)
         udn = rng.choice(udns)
         ty = rng.choice(types)
         loc, addr = rng.choice(K.GOOD_LOCS)
-        cache = rng.choice(K.CACHE[:5])
+        cache = rng.choice(K.CACHE[:5]) if rng.random() > 0.03 else rng.choice(K.HUGE)
         extra = [list(p) for p in rng.choice(K.EXTRA)]
         if rng.random() < 0.3:
             extra += [list(p) for p in rng.choice(K.EXTRA) if p[0].lower() not in {e[0].lower() for e in extra}]
